@@ -4,6 +4,7 @@ import collections
 import enum
 import errno
 import functools
+import itertools
 import logging
 import pathlib
 import socket
@@ -672,6 +673,7 @@ class Server:
             self.available_data_ports = asyncio.PriorityQueue()
             for data_port in data_ports:
                 self.available_data_ports.put_nowait((0, data_port))
+            self._busy_data_port_priority = itertools.count(1)
         else:
             self.available_data_ports = None
 
@@ -1434,7 +1436,8 @@ class Server:
                 except asyncio.QueueEmpty:
                     raise errors.NoAvailablePort
                 except OSError as err:
-                    self.available_data_ports.put_nowait((priority + 1, port))
+                    priority = next(self._busy_data_port_priority)
+                    self.available_data_ports.put_nowait((priority, port))
                     if err.errno != errno.EADDRINUSE:
                         raise
                 except asyncio.CancelledError:
